@@ -1206,9 +1206,23 @@ impl<V: Full> Backend for B<V> {
                 Artifact::Sid => KeyId::<V, Secret>::from_str(s)?.to_string(),
                 Artifact::PieLocal => PieWrappedKey::<V, Local>::from_str(s)?.to_string(),
                 Artifact::PieSecret => PieWrappedKey::<V, Secret>::from_str(s)?.to_string(),
-                Artifact::PwLocal => PasswordWrappedKey::<V, Local>::from_str(s)?.to_string(),
-                Artifact::PwSecret => PasswordWrappedKey::<V, Secret>::from_str(s)?.to_string(),
-                Artifact::Seal => SealedKey::<V>::from_str(s)?.to_string(),
+                Artifact::PwLocal => {
+                    let w = PasswordWrappedKey::<V, Local>::from_str(s)?;
+                    // the parameter accessor works on the unauthenticated, possibly short blob
+                    let _ = w.params();
+                    w.to_string()
+                }
+                Artifact::PwSecret => {
+                    let w = PasswordWrappedKey::<V, Secret>::from_str(s)?;
+                    let _ = w.params();
+                    w.to_string()
+                }
+                Artifact::Seal => {
+                    let k = SealedKey::<V>::from_str(s)?;
+                    let c = k.clone();
+                    drop(k);
+                    c.to_string()
+                }
             })
         })
     }
